@@ -441,7 +441,8 @@ fn check_point(cx: &mut Ctx, s: &dyn DynSampler, cached_spec: Option<f64>, ri: u
     // ------------------------------------------------------------------ C12 (binding): lambda is the quantile of its coordinate
     let lam = meta.lambda;
     match momtrop::gamma::inverse_gamma_lr(&s.dod(), &x[2 * e - 2], 50, &5.0) {   // the sampler's own degree of divergence
-        Ok(want) => if want.to_bits() != lam.to_bits() { cx.viol("C12", format!("lambda {} is not inverse_gamma_lr(dod, x[2E-2]) = {}", lam, want), ri, x, json!({})); },
+        // (iteration count and stopping tolerance are the implementation's choice: agreement to 1e-7, not bit for bit)
+        Ok(want) => if !(rel_err(lam, want) <= 1e-7) { cx.viol("C12", format!("lambda {} is not inverse_gamma_lr(dod, x[2E-2]) = {}", lam, want), ri, x, json!({})); },
         Err(_) => cx.viol("C12", "sample succeeded although the Gamma quantile of its coordinate is an error".into(), ri, x, json!({})),
     }
     if !(lam > 0.0 && lam.is_finite()) { cx.viol("C12", format!("lambda = {} used by a sample is not finite and positive", lam), ri, x, json!({})); }
